@@ -501,7 +501,10 @@ struct optional<T&> {
     }
 
     template <typename U = T>
-        requires(not is_same_v<remove_cvref_t<U>, optional> and not conjunction_v<is_scalar<T>, is_same<T, decay_t<U>>>)
+        requires(
+            not is_same_v<remove_cvref_t<U>, optional> and not conjunction_v<is_scalar<T>, is_same<T, decay_t<U>>>
+            and (is_constructible_v<add_lvalue_reference_t<T>, U> or not is_lvalue_reference_v<U>)
+        )
     constexpr auto operator=(U&& v) -> optional&
     {
         static_assert(is_constructible_v<add_lvalue_reference_t<T>, U>, "Must be able to bind U to T&");
@@ -514,7 +517,7 @@ struct optional<T&> {
     constexpr auto operator=(optional<U> const& rhs) -> optional&
     {
         static_assert(is_constructible_v<add_lvalue_reference_t<T>, U>, "Must be able to bind U to T&");
-        _ptr = rhs._ptr;
+        _ptr = rhs.has_value() ? etl::addressof(*rhs) : nullptr;
         return *this;
     }
 
